@@ -106,6 +106,8 @@ def _chunk(prop: str, base_seed: int, start: int, count: int, deadline: float | 
 
 def load_known() -> list[dict]:
     p = os.path.join(VERIF, "known_findings.json")
+    if os.environ.get("VERIF_IGNORE_KNOWN"):
+        return []  # maintenance only: regenerate replay files of known findings
     if not os.path.exists(p):
         return []
     with open(p) as f:
@@ -295,6 +297,7 @@ def main(argv: list[str] | None = None) -> int:
                 f.cancel()
 
         # classify
+        replay_files: list[str] = []
         new_by_sig: dict[str, list[dict]] = {}
         known_hits: dict[str, tuple[dict, int]] = {}
         for v in total["violations"]:
@@ -305,7 +308,6 @@ def main(argv: list[str] | None = None) -> int:
             else:
                 new_by_sig.setdefault(sig_of(v), []).append(v)
 
-        replay_files: list[str] = []
         if new_by_sig and not pool_broken:
             os.makedirs(os.path.join(VERIF, "replays"), exist_ok=True)
             jobs = {}
@@ -360,6 +362,8 @@ def main(argv: list[str] | None = None) -> int:
 
     if pool_broken:
         return 2
+    if new_by_sig and replay_files:
+        return 1
     if total["runs"] == 0 or harness_n > max(3, total["runs"] * getattr(mod, "HARNESS_TOLERANCE", 0.02)):
         print(f"[{prop}] HARNESS-ERROR: {harness_n} of {total['runs']} runs hit harness conditions {total['harness']}")
         return 2
